@@ -80,10 +80,10 @@ impl KeyValueStore {
 }
 
 //@ extract lsmtk/src/kvs/mod.rs | impl KeyValueStore :: fn write
-//@ region >`let (mut wait_guard, memtable, log) = {` ..$
+//@ region >`let (mut wait_guard, memtable, log` ..$
 //@ region-sig <<
 #[verifier::exec_allows_no_decreases_clause]
-fn write_after_link(kvs: &mut KeyValueStore, mut batch: WriteBatch, memtable: MemTableArc, log: LogArc, mut wait_guard: WaitGuard) -> (r: Result<(), SError>)
+fn write_after_link(kvs: &mut KeyValueStore, mut batch: WriteBatch, memtable: MemTableArc, log: LogArc, mut wait_guard: WaitGuard, seq_no: u64) -> (r: Result<(), SError>)
 //@ >>
 //@ region-tail <<
 //@ >>
@@ -91,6 +91,7 @@ fn write_after_link(kvs: &mut KeyValueStore, mut batch: WriteBatch, memtable: Me
 //@ rewrite-re? X7 `(?s)let mut log_batch = sst::log::WriteBatch::default\(\);\s*for entry in batch\.entries\.iter\(\) \{\s*log_batch\.insert\(KeyValueRef::from\(entry\)\)\?;\s*\}` => `let log_batch = build_log_batch(&batch)?;`
 //@ rewrite-re? X18 `drop\((memtable|log)\);` => ``
 //@ rewrite X18 `drop(wait_guard);` => `kvs.wait_list.unlink(wait_guard);`
+//@ rewrite-re? X7 `(?m)^\s*state\.visible_seq_no = .*;\n` => ``
 //@ rewrite X7 `kvs.state.lock().unwrap()` => `kvs.state.lock_unwrap()`
 //@ pre <<
         old(kvs).wait_list.linked() >= 1,
